@@ -1,26 +1,69 @@
-//! Deterministic scheduler over real, parked OS threads. Exactly one simulated thread runs at any
-//! instant; at every hook point of the library (feature `verif-hooks`) the running thread calls
-//! the scheduler, which draws from the run's schedule stream which runnable thread continues,
-//! hands over by an atomic turn variable and parks the caller (spinning). The choice of who runs
-//! is never the operating system's. One simulation at a time per process.
+//! Deterministic scheduler over real, parked OS threads. Exactly one simulated thread holds the
+//! turn at any instant; at every hook point of the library (feature `verif-hooks`) the running
+//! thread calls the scheduler, which draws from the run's schedule stream which runnable thread
+//! continues, hands over by an atomic turn variable and parks the caller (spinning). The choice
+//! of who runs is never the operating system's. One simulation at a time per process.
+//!
+//! Library-internal blocking (a `std` lock or condvar the simulator does not own): if the turn
+//! holder makes no progress for `STALL_MS`, a monitor marks it *stalled* and hands the turn to
+//! another parked thread (a forced switch, recorded in the choice list). When the stalled thread
+//! is released by the library primitive it runs on until its next hook, where it parks again.
+//! If every live thread is stalled or blocked and nothing moves for `WATCHDOG_S`, that is a
+//! deadlock inside the library: reported as such (the stuck threads are leaked).
 
 use evalexpr::verif::Site;
 use std::cell::Cell;
 use std::panic::{catch_unwind, AssertUnwindSafe};
-use std::sync::atomic::{AtomicBool, AtomicUsize, Ordering};
-use std::sync::Mutex;
+use std::sync::atomic::{AtomicBool, AtomicU64, AtomicUsize, Ordering};
+use std::sync::{Arc, Mutex};
 use std::time::{Duration, Instant};
 use verifsim::rng::{Fnv, Rng};
 
 pub const MAIN: usize = usize::MAX;
 pub const N_SITES: usize = 19;
 pub const STEP_CAP: u64 = 100_000;
-/// real-time watchdog: only trips if library code blocks on a primitive the simulator does not own
+/// no progress of the turn holder for this long AND its OS thread asleep in the kernel (state `S`
+/// in /proc/self/task/<tid>/stat, sampled twice) = it is blocked in a primitive of the library.
+/// A turn holder that is merely descheduled stays in state `R` and is never mistaken for stalled.
+pub const STALL_US: u64 = 1500;
+/// nothing moves at all for this long = deadlock
 pub const WATCHDOG_S: u64 = 4;
+/// after this many forced switches in one simulation the rest of it runs unscheduled
+pub const MAX_STALLS: u64 = 80;
+/// forced switches are recorded in the choice list with this bit set
+pub const FORCED: u16 = 0x8000;
 
 static TURN: AtomicUsize = AtomicUsize::new(MAIN);
 static ACTIVE: AtomicBool = AtomicBool::new(false);
+static FREE: AtomicBool = AtomicBool::new(false);
+static PROGRESS: AtomicU64 = AtomicU64::new(0);
 static STATE: Mutex<Option<SimState>> = Mutex::new(None);
+/// OS thread ids of the simulated threads of the current simulation
+static TIDS: Mutex<Vec<u64>> = Mutex::new(Vec::new());
+
+/// Kernel thread id of the calling thread (from the /proc/thread-self link; no libc needed).
+fn current_tid() -> u64 {
+    std::fs::read_link("/proc/thread-self")
+        .ok()
+        .and_then(|p| p.file_name().and_then(|n| n.to_str()).and_then(|n| n.parse().ok()))
+        .unwrap_or(0)
+}
+
+/// True if the OS thread is asleep in the kernel (futex wait of a lock or condvar).
+fn thread_is_asleep(tid: u64) -> bool {
+    if tid == 0 {
+        return false;
+    }
+    match std::fs::read_to_string(format!("/proc/self/task/{}/stat", tid)) {
+        // "<pid> (<comm>) <state> ..."; comm may contain spaces, so look behind the last ')'
+        Ok(s) => s
+            .rfind(')')
+            .and_then(|i| s[i + 1..].trim_start().chars().next())
+            .map(|c| c == 'S' || c == 'D')
+            .unwrap_or(false),
+        Err(_) => false,
+    }
+}
 
 thread_local! {
     static ME: Cell<Option<usize>> = const { Cell::new(None) };
@@ -40,6 +83,9 @@ enum Status {
     Running,
     /// waiting for a harness-level event (mailbox delivery); not runnable until unblocked
     Blocked,
+    /// blocked in (or running on after) a primitive of the library; outside the scheduler's
+    /// control until it reaches its next hook
+    Stalled,
     Done,
 }
 
@@ -73,6 +119,8 @@ pub enum Chooser {
 
 struct SimState {
     status: Vec<Status>,
+    /// mirror of TURN, read under the lock
+    turn_holder: usize,
     chooser: Chooser,
     choices: Vec<u16>,
     steps: u64,
@@ -81,13 +129,13 @@ struct SimState {
     site_hits: [u64; N_SITES],
     preemptions: u64,
     switches: u64,
+    stalls: u64,
     free_run: bool,
     /// all remaining threads were blocked (their event can no longer arrive): they are released
     /// and must give up
     aborted: bool,
     no_progress: Option<usize>,
     trace: Fnv,
-    max_alive_at_switch: usize,
 }
 
 #[derive(Clone, Debug, Default)]
@@ -98,11 +146,14 @@ pub struct SimReport {
     /// switches to another thread while the yielding thread was not finished
     pub preemptions: u64,
     pub switches: u64,
+    /// forced switches away from a thread blocked in a library primitive
+    pub stalls: u64,
     pub no_progress: Option<usize>,
     /// digest of the (thread, site) sequence: the event log of the schedule
     pub trace_digest: u64,
     pub panics: Vec<(usize, String)>,
-    pub watchdog: bool,
+    /// every live thread was stuck in library primitives and nothing moved for WATCHDOG_S
+    pub deadlock: bool,
 }
 
 /// The process-wide hook given to `evalexpr::verif::install`.
@@ -144,6 +195,9 @@ pub fn unblock(t: usize) {
 
 /// True once the scheduler gave up on blocked threads (their event can no longer arrive).
 pub fn aborted() -> bool {
+    if FREE.load(Ordering::Relaxed) {
+        return true;
+    }
     STATE.lock().unwrap().as_ref().map(|s| s.aborted).unwrap_or(true)
 }
 
@@ -155,6 +209,9 @@ pub fn install_hook() {
 fn wait_for_turn(me: usize) {
     let mut spins = 0u32;
     while TURN.load(Ordering::Acquire) != me {
+        if FREE.load(Ordering::Relaxed) {
+            return;
+        }
         spins += 1;
         if spins < 300 {
             std::hint::spin_loop();
@@ -168,14 +225,13 @@ fn pick(st: &mut SimState, runnable: &[usize], me: usize, me_runnable: bool) -> 
     let step = st.steps;
     match &mut st.chooser {
         Chooser::Replay { list, pos } => {
-            let idx = if *pos < list.len() {
-                let i = list[*pos] as usize;
+            if *pos < list.len() {
+                let i = (list[*pos] & !FORCED) as usize;
                 *pos += 1;
                 i % runnable.len()
             } else {
                 0
-            };
-            idx
+            }
         },
         Chooser::Seeded { rng, strategy, priorities, quantum_left } => match strategy {
             Strategy::Random => rng.usize_below(runnable.len()),
@@ -193,8 +249,7 @@ fn pick(st: &mut SimState, runnable: &[usize], me: usize, me_runnable: bool) -> 
                 } else {
                     *quantum_left = *q;
                     // next thread after me in id order
-                    let next = runnable.iter().position(|t| *t > me && me != MAIN).unwrap_or(0);
-                    next
+                    runnable.iter().position(|t| *t > me && me != MAIN).unwrap_or(0)
                 }
             },
             Strategy::Pct { change_points } => {
@@ -218,6 +273,7 @@ fn pick(st: &mut SimState, runnable: &[usize], me: usize, me_runnable: bool) -> 
 }
 
 fn yield_at(me: usize, site: Option<Site>, done: bool, block: bool) {
+    PROGRESS.fetch_add(1, Ordering::Relaxed);
     let next;
     {
         let mut guard = STATE.lock().unwrap();
@@ -225,10 +281,34 @@ fn yield_at(me: usize, site: Option<Site>, done: bool, block: bool) {
             Some(st) => st,
             None => return,
         };
-        if !done {
-            if st.free_run {
+        if st.free_run {
+            if done {
+                st.status[me] = Status::Done;
+            }
+            return;
+        }
+        if st.turn_holder != me {
+            // a thread that was stalled in a library primitive and has been released by it: it is
+            // outside the scheduler's control until here; now it parks (or is simply finished)
+            if done {
+                st.status[me] = Status::Done;
                 return;
             }
+            if let Some(site) = site {
+                if st.enabled_sites & (1 << site_index(site)) == 0 {
+                    return;
+                }
+            }
+            st.status[me] = if block && !st.aborted {
+                Status::Blocked
+            } else {
+                Status::Parked
+            };
+            drop(guard);
+            wait_for_turn(me);
+            return;
+        }
+        if !done {
             if let Some(site) = site {
                 let i = site_index(site);
                 if st.enabled_sites & (1 << i) == 0 {
@@ -244,6 +324,7 @@ fn yield_at(me: usize, site: Option<Site>, done: bool, block: bool) {
                 // deterministic, replayable "no progress": stop scheduling, let everything drain
                 st.no_progress = Some(me);
                 st.free_run = true;
+                FREE.store(true, Ordering::Release);
                 return;
             }
         }
@@ -258,6 +339,16 @@ fn yield_at(me: usize, site: Option<Site>, done: bool, block: bool) {
             .filter(|t| st.status[*t] == Status::Parked)
             .collect();
         if runnable.is_empty() {
+            if st.status.iter().any(|s| *s == Status::Stalled) {
+                // the only threads left are outside the scheduler's control: let them run on
+                // unscheduled (hooks return immediately from now on)
+                st.free_run = true;
+                FREE.store(true, Ordering::Release);
+                st.turn_holder = MAIN;
+                drop(guard);
+                TURN.store(MAIN, Ordering::Release);
+                return;
+            }
             if st.status.iter().any(|s| *s == Status::Blocked) {
                 // nothing can run any more but some threads still wait: release them to give up
                 st.aborted = true;
@@ -270,6 +361,7 @@ fn yield_at(me: usize, site: Option<Site>, done: bool, block: bool) {
                     .filter(|t| st.status[*t] == Status::Parked)
                     .collect();
             } else {
+                st.turn_holder = MAIN;
                 drop(guard);
                 TURN.store(MAIN, Ordering::Release);
                 return;
@@ -280,15 +372,12 @@ fn yield_at(me: usize, site: Option<Site>, done: bool, block: bool) {
         next = runnable[idx];
         st.choices.push(idx as u16);
         st.status[next] = Status::Running;
+        st.turn_holder = next;
         st.steps += 1;
         if next != me {
             st.switches += 1;
             if !done {
                 st.preemptions += 1;
-            }
-            let alive = st.status.iter().filter(|s| **s != Status::Done).count();
-            if alive > st.max_alive_at_switch {
-                st.max_alive_at_switch = alive;
             }
         }
     }
@@ -365,13 +454,15 @@ pub fn replay_config(list: Vec<u16>, enabled_sites: u32) -> SimConfig {
     }
 }
 
-/// Runs the bodies as simulated threads under the scheduler. Blocks until all are done.
-pub fn simulate(cfg: SimConfig, bodies: Vec<Box<dyn FnOnce() + Send + '_>>) -> SimReport {
+/// Runs the bodies as simulated threads under the scheduler. Blocks until all are done (or until
+/// a deadlock inside the library is diagnosed; the stuck threads are then leaked).
+pub fn simulate(cfg: SimConfig, bodies: Vec<Box<dyn FnOnce() + Send + 'static>>) -> SimReport {
     let n = bodies.len();
     {
         let mut guard = STATE.lock().unwrap();
         *guard = Some(SimState {
             status: vec![Status::Parked; n],
+            turn_holder: MAIN,
             chooser: cfg.chooser,
             choices: Vec::new(),
             steps: 0,
@@ -380,82 +471,154 @@ pub fn simulate(cfg: SimConfig, bodies: Vec<Box<dyn FnOnce() + Send + '_>>) -> S
             site_hits: [0; N_SITES],
             preemptions: 0,
             switches: 0,
+            stalls: 0,
             free_run: false,
             aborted: false,
             no_progress: None,
             trace: Fnv::new(),
-            max_alive_at_switch: 0,
         });
     }
     TURN.store(MAIN, Ordering::Release);
+    FREE.store(false, Ordering::Release);
     ACTIVE.store(true, Ordering::Release);
-    let panics: Mutex<Vec<(usize, String)>> = Mutex::new(Vec::new());
-    let mut watchdog = false;
-    std::thread::scope(|scope| {
-        for (i, body) in bodies.into_iter().enumerate() {
-            let panics = &panics;
-            scope.spawn(move || {
-                ME.with(|m| m.set(Some(i)));
-                wait_for_turn(i);
-                if catch_unwind(AssertUnwindSafe(body)).is_err() {
-                    panics
-                        .lock()
-                        .unwrap()
-                        .push((i, verifsim::env::last_panic()));
+    *TIDS.lock().unwrap() = vec![0; n];
+    let panics: Arc<Mutex<Vec<(usize, String)>>> = Arc::new(Mutex::new(Vec::new()));
+    let finished = Arc::new(AtomicUsize::new(0));
+    let mut handles = Vec::new();
+    for (i, body) in bodies.into_iter().enumerate() {
+        let panics = panics.clone();
+        let finished = finished.clone();
+        handles.push(std::thread::spawn(move || {
+            ME.with(|m| m.set(Some(i)));
+            {
+                let tid = current_tid();
+                let mut t = TIDS.lock().unwrap();
+                if i < t.len() {
+                    t[i] = tid;
                 }
-                yield_at(i, None, true, false);
-                ME.with(|m| m.set(None));
-            });
+            }
+            wait_for_turn(i);
+            if catch_unwind(AssertUnwindSafe(body)).is_err() {
+                panics
+                    .lock()
+                    .unwrap()
+                    .push((i, verifsim::env::last_panic()));
+            }
+            yield_at(i, None, true, false);
+            ME.with(|m| m.set(None));
+            finished.fetch_add(1, Ordering::Release);
+        }));
+    }
+    // start: the scheduler picks the first thread
+    {
+        let mut guard = STATE.lock().unwrap();
+        let st = guard.as_mut().unwrap();
+        let runnable: Vec<usize> = (0..n).collect();
+        let idx = pick(st, &runnable, MAIN, false);
+        st.choices.push(idx as u16);
+        st.status[runnable[idx]] = Status::Running;
+        st.turn_holder = runnable[idx];
+        st.steps += 1;
+        drop(guard);
+        TURN.store(runnable[idx], Ordering::Release);
+    }
+    // monitor: wait for completion; detect a turn holder that is blocked in a library primitive
+    let mut deadlock = false;
+    let mut last_progress = PROGRESS.load(Ordering::Relaxed);
+    let mut last_change = Instant::now();
+    let mut spins = 0u64;
+    loop {
+        // (when the scheduled part is over, free-running threads finish on their own)
+        if finished.load(Ordering::Acquire) == n {
+            break;
         }
-        // start: the scheduler picks the first thread
-        {
+        spins += 1;
+        if spins < 300 {
+            std::hint::spin_loop();
+            continue;
+        }
+        std::thread::yield_now();
+        if spins % 64 != 0 {
+            continue;
+        }
+        let p = PROGRESS.load(Ordering::Relaxed) + finished.load(Ordering::Relaxed) as u64;
+        if p != last_progress {
+            last_progress = p;
+            last_change = Instant::now();
+            continue;
+        }
+        let idle = last_change.elapsed();
+        if idle > Duration::from_secs(WATCHDOG_S) {
+            deadlock = true;
+            break;
+        }
+        if idle > Duration::from_micros(STALL_US) {
+            // is the turn holder asleep in the kernel? (two samples)
+            let holder = STATE.lock().unwrap().as_ref().map(|s| s.turn_holder).unwrap_or(MAIN);
+            if holder == MAIN {
+                continue;
+            }
+            let tid = TIDS.lock().unwrap().get(holder).copied().unwrap_or(0);
+            if !thread_is_asleep(tid) {
+                continue;
+            }
+            std::thread::sleep(Duration::from_micros(300));
+            if !thread_is_asleep(tid) || PROGRESS.load(Ordering::Relaxed) + finished.load(Ordering::Relaxed) as u64 != last_progress {
+                continue;
+            }
             let mut guard = STATE.lock().unwrap();
             let st = guard.as_mut().unwrap();
-            let runnable: Vec<usize> = (0..n).collect();
-            let idx = pick(st, &runnable, MAIN, false);
-            st.choices.push(idx as u16);
-            st.status[runnable[idx]] = Status::Running;
-            st.steps += 1;
-            drop(guard);
-            TURN.store(runnable[idx], Ordering::Release);
-        }
-        // wait for completion with a real-time watchdog (only trips if library code blocks on a
-        // primitive the simulator does not own)
-        let start = Instant::now();
-        let mut spins = 0u64;
-        while TURN.load(Ordering::Acquire) != MAIN {
-            spins += 1;
-            if spins < 300 {
-                std::hint::spin_loop();
-            } else {
-                std::thread::yield_now();
-                if spins % 4096 == 0 && start.elapsed() > Duration::from_secs(WATCHDOG_S) {
-                    watchdog = true;
-                    // let everything drain without scheduling so that the scope can end
-                    if let Some(st) = STATE.lock().unwrap().as_mut() {
+            let cur = st.turn_holder;
+            if cur == holder && !st.free_run && st.status[cur] == Status::Running {
+                let runnable: Vec<usize> = (0..n).filter(|t| st.status[*t] == Status::Parked).collect();
+                if !runnable.is_empty() {
+                    // forced switch: the holder is blocked in a primitive the simulator does not own
+                    st.status[cur] = Status::Stalled;
+                    st.stalls += 1;
+                    if st.stalls > MAX_STALLS {
                         st.free_run = true;
+                        st.turn_holder = MAIN;
+                        FREE.store(true, Ordering::Release);
+                        drop(guard);
+                        TURN.store(MAIN, Ordering::Release);
+                    } else {
+                        let idx = pick(st, &runnable, cur, false);
+                        let next = runnable[idx];
+                        st.choices.push(idx as u16 | FORCED);
+                        st.status[next] = Status::Running;
+                        st.turn_holder = next;
+                        st.steps += 1;
+                        st.switches += 1;
+                        st.preemptions += 1;
+                        st.trace.u64(((cur as u64) << 8) | 0xfe);
+                        drop(guard);
+                        TURN.store(next, Ordering::Release);
                     }
-                    // release every thread
-                    for t in 0..n {
-                        TURN.store(t, Ordering::Release);
-                        std::thread::sleep(Duration::from_millis(50));
-                    }
-                    break;
+                    last_change = Instant::now();
                 }
             }
         }
-    });
+    }
+    if !deadlock {
+        for h in handles {
+            let _ = h.join();
+        }
+    }
+    // (on deadlock the stuck threads are leaked: they stay blocked in the library's primitives)
     ACTIVE.store(false, Ordering::Release);
+    FREE.store(true, Ordering::Release);
     let st = STATE.lock().unwrap().take().unwrap();
+    let panics = panics.lock().unwrap().clone();
     SimReport {
         choices: st.choices,
         steps: st.steps,
         site_hits: st.site_hits,
         preemptions: st.preemptions,
         switches: st.switches,
+        stalls: st.stalls,
         no_progress: st.no_progress,
         trace_digest: st.trace.finish(),
-        panics: panics.into_inner().unwrap(),
-        watchdog,
+        panics,
+        deadlock,
     }
 }
